@@ -167,6 +167,7 @@ class TlsConn:
             for c in chunks:
                 self._enc("s", 22, b"".join(c), "HS13", pad13=sh.get("pad13_hs", 0))
             self.cur["s"] = self.ap["s"]
+            self._early("s")                   # 0.5-RTT data: application data of the server before the client's Finished
             if sh.get("ccs13", True):
                 self._add("c", "CCS", R.record(20, self.rec_ver, b"\x01"))
             self._enc("c", 22, R.hs_msg(20, g(R.HLEN[s.prf])), "HS13", pad13=sh.get("pad13_hs", 0))
@@ -183,6 +184,7 @@ class TlsConn:
             self._plain_hs("s", "SH", [shm])
             self._add("s", "CCS", R.record(20, self.rec_ver, b"\x01"))
             self._enc("s", 22, R.hs_msg(20, g(fin_len)), "FIN")
+            self._early("s")
             self._add("c", "CCS", R.record(20, self.rec_ver, b"\x01"))
             self._enc("c", 22, R.hs_msg(20, g(fin_len)), "FIN")
             return
@@ -196,10 +198,15 @@ class TlsConn:
         self._plain_hs("c", "HS", [R.hs_msg(16, g(66))])
         self._add("c", "CCS", R.record(20, self.rec_ver, b"\x01"))
         self._enc("c", 22, R.hs_msg(20, g(fin_len)), "FIN")
+        self._early("c")                       # False Start (RFC 7918): application data of the client before the server's Finished
         if sh.get("tickets") and ver != R.SSL30:
             self._plain_hs("s", "HS", [R.hs_msg(4, struct.pack("!IH", 7200, 48) + g(48))])
         self._add("s", "CCS", R.record(20, self.rec_ver, b"\x01"))
         self._enc("s", 22, R.hs_msg(20, g(fin_len)), "FIN")
+
+    def _early(self, d):
+        for a in self.shape.get("early_app", ()):
+            self.app(d, a[0], pad13=a[1] if len(a) > 1 else None)
 
     # ---------------------------------------------------------------- application phase
     def app(self, d, n, pad13=None):
